@@ -69,6 +69,30 @@ CHECKS = {
         text="Boundary-targeted affines and gradients are pushed through the real encoder functions, compiled into a real COLR table with fontTools and decompiled; the decompiled paints must compose to the requested affine within what half a quantum of each F2Dot14/Fixed field explains (integer fields must be exact), out-of-range values must end in a wider encoding or an exception, gradient colour parameters must be preserved, and nanoemoji's gettransform of every static transform paint must equal the spec matrix.",
         design="3/C16",
     ),
+    "C11": dict(
+        level="exploration",
+        technique="runtime monitoring: name-keyed layout-meaning extractor before/after reorder_glyphs+save+reload, coverage / PairSet order validator on the reloaded binary, fontTools 'not sorted' warning events as a monitor",
+        text="Generated fonts carrying every GSUB/GPOS lookup type and format (feaLib-compiled plus hand-assembled Context/ChainContext formats 1-3, extension lookups), GDEF attach/caret lists and a COLR table are reordered by six kinds of permutation; after save and reload the name-keyed meaning of every lookup, cmap, hmtx, outlines and COLR must be unchanged and every Coverage (and PairSet) of the saved binary must be in increasing glyph id order. A (type, format) pair that is never generated makes the run inconclusive.",
+        design="3/C11",
+    ),
+    "C13": dict(
+        level="exploration",
+        technique="runtime monitoring: COLR evaluator vs SVG evaluator on colr_to_svg output for generated paint graphs; captured absl warnings / exceptions for planted unsupported nodes",
+        text="Synthetic COLRv0/v1 fonts with random paint graphs over the supported set (all static transform paints, nested layers, colour-glyph references, group composites, linear/radial gradients, 1-3 palettes, composite outline glyphs) are converted with colr_to_svg under four kinds of viewBox; the returned SVG is evaluated and compared layer by layer with the paint graph's display list, colour conventions (currentColor, var(--colorN)) are checked, and a planted unsupported node must produce an exception or a warning.",
+        design="3/C13",
+    ),
+    "C14": dict(
+        level="exploration",
+        technique="runtime monitoring: bitmap placement spec predicate over CBDT/CBLC and sbix read back from generated fonts",
+        text="CBDT and sbix fonts are built in-process from Pillow-made PNGs (square with any width, non-square narrow/wide in proportional and fixed-width mode, awkward metrics, resolutions up to and beyond the 8-bit limits, gid gaps); stored bytes, strike ppem, the bitmap box against the scaled em box, and the pixel advance are checked per glyph; unrepresentable inputs must be refused.",
+        design="3/C14",
+    ),
+    "C19": dict(
+        level="exploration",
+        technique="runtime monitoring: storage observation (which outline each copy is drawn from) + audit of every miss from contract H2's log of pre-rounding normal forms against four recorded third-party mechanisms",
+        text="Fonts made of congruent copies of one prototype (exact tier: integer coordinates, k*90 degree rotations, mirrors; arbitrary tier: any isometry) are built as COLRv0, COLRv1 and picosvg; every copy must be drawn from one outline, a control build with reuse disabled must store them separately. The property does not hold as stated on this tree (finding F6): each miss is attributed by re-running picosvg's normalisation / affine recovery on the unrounded shapes to K1 rounding straddle, K2 insignificant-y mirror, K3 affine_between failure or K4 threshold straddle; any other miss is a violation.",
+        design="3/C19",
+    ),
 }
 
 NOT_YET = {}
